@@ -6,6 +6,7 @@ Read a VCF and one or more files with phase information (BAM/CRAM or VCF phased
 blocks) and phase the variants. The phased VCF is written to standard output.
 """
 import logging
+import os
 import sys
 import platform
 
@@ -278,6 +279,57 @@ def setup_pedigree(ped_path: str, samples: Sequence[str]) -> Tuple[Sequence[Trio
         pedigree_samples.add(trio.mother)
 
     return trios, pedigree_samples
+
+
+def _verif_trace(path, chromosome, family, trios, max_coverage, max_coverage_per_sample,
+                 distrust_genotypes, accessible_positions, all_reads, numeric_sample_ids,
+                 phasable_variant_table, recombination_costs, dp_table, superreads_list,
+                 transmission_vector, overall_components):
+    """Verification hook (only active when WHATSHAP_VERIF_TRACE is set): append the instance
+    seen by the exact solver and what it returned as one JSON line to the given file."""
+    import json
+
+    id_to_name = numeric_sample_ids.inverse_mapping()
+    record = {
+        "chromosome": chromosome,
+        "family": list(family),
+        "trios": [[t.father, t.mother, t.child] for t in trios],
+        "max_coverage": max_coverage,
+        "max_coverage_per_sample": max_coverage_per_sample,
+        "distrust_genotypes": bool(distrust_genotypes),
+        "accessible_positions": list(accessible_positions),
+        "reads": [
+            {
+                "name": read.name,
+                "source_id": read.source_id,
+                "sample": id_to_name[read.sample_id],
+                "variants": [[v.position, v.allele, v.quality] for v in read],
+            }
+            for read in all_reads
+        ],
+        "genotypes": {
+            sample: [list(gt.as_vector()) for gt in phasable_variant_table.genotypes_of(sample)]
+            for sample in family
+        },
+        "likelihoods": {
+            sample: [
+                None if gl is None else list(gl.log10_probs())
+                for gl in phasable_variant_table.genotype_likelihoods_of(sample)
+            ]
+            for sample in family
+        },
+        "recombination_costs": list(recombination_costs),
+        "cost": dp_table.get_optimal_cost(),
+        "partition": list(dp_table.get_optimal_partitioning()),
+        "transmission_vector": None if transmission_vector is None else list(transmission_vector),
+        "superreads": {
+            sample: [[[v.position, v.allele, v.quality] for v in sr] for sr in superreads]
+            for sample, superreads in zip(family, superreads_list)
+        },
+        "components": sorted([p, c] for p, c in overall_components.items()),
+    }
+    with open(path, "a") as f:
+        f.write(json.dumps(record) + "\n")
 
 
 def run_whatshap(
@@ -614,6 +666,14 @@ def run_whatshap(
                         superreads_list,
                     )
                     log_component_stats(overall_components, len(accessible_positions))
+
+                if os.environ.get("WHATSHAP_VERIF_TRACE") and algorithm == "whatshap":
+                    _verif_trace(
+                        os.environ["WHATSHAP_VERIF_TRACE"], chromosome, family, trios, max_coverage,
+                        max_coverage_per_sample, distrust_genotypes, accessible_positions, all_reads,
+                        numeric_sample_ids, phasable_variant_table, recombination_costs, dp_table,
+                        superreads_list, transmission_vector, overall_components,
+                    )
 
                 if recombination_list_filename:
                     assert transmission_vector is not None
